@@ -241,6 +241,10 @@ SUITES = {
     "C07": {"suites": [
         hook_suite("c07-hook", {"n": 40, "shards": 8}, {"n": 400, "shards": 16}),
         hook_suite("c07-hook-faults", {"n": 30, "shards": 4}, {"n": 300, "shards": 16}, extra=["--faults"]),
+        # every sequence of 2 (thorough: 3) operations over the small domains after a drawn prefix
+        # ("exhaustively to a bounded depth")
+        hook_suite("c07-hook-exhaustive", {"n": 3, "shards": 4, "args": ["--exhaustive", "2", "--full-domain"]},
+                   {"n": 1, "shards": 16, "args": ["--exhaustive", "3", "--max-ids", "2"]}, length=4),
         hook_conc_suite("c07-hook-concurrent", {"n": 150, "shards": 4}, {"n": 1500, "shards": 16}),
     ]},
     "C08": {"suites": [
